@@ -64,6 +64,9 @@ func (c *ctx) linkFrame(dir string, ack bool, layout string, hiZero bool) M {
 		v["frm"] = c.genRawItem(c.pick(1, 2, 15, 16, 17, 33, 1+c.rnd.Intn(100)))
 	case "foptsonly":
 		v["fopts"] = nonEmptyStream(15)
+	case "port0empty":
+		v["fport"] = []interface{}{0}
+		v["frm"] = []interface{}{}
 	case "fopts+port":
 		v["fopts"] = nonEmptyStream(15)
 		v["fport"] = []interface{}{c.pick(1, 10, 223, 224, 255)}
@@ -278,10 +281,10 @@ func (c *ctx) linkCase(cs M) {
 func (c *ctx) flipSweep() {
 	dir := []string{"up", "down"}[c.rnd.Intn(2)]
 	ver := c.rnd.Intn(2)
-	layout := []string{"fopts+app", "port0", "app", "foptsonly", "fopts+port"}[c.rnd.Intn(5)]
+	layout := []string{"fopts+app", "port0", "app", "foptsonly", "fopts+port", "port0empty"}[c.rnd.Intn(6)]
 	k := linkKeys{app: c.key(), enc: c.key(), fk: c.key(), sk: c.key(), conf: c.edge32(), txdr: uint8(c.rnd.Intn(256)), txch: uint8(c.rnd.Intn(256))}
 	orig := c.linkFrame(dir, c.rnd.Intn(2) == 0, layout, c.rnd.Intn(4) == 0)
-	if layout != "foptsonly" && layout != "fopts+port" {
+	if layout != "foptsonly" && layout != "fopts+port" && layout != "port0empty" {
 		// keep the sweep affordable: short payload
 		if layout == "port0" {
 			for {
